@@ -98,6 +98,7 @@ def tasks(tier, seed):
     out += [('reentrant', i) for i in range(reentry.N_OUTERS)]
     out += [('soak', k) for k in SOAK_KINDS]
     out += [('preimport', i) for i in range(len(PRE_IMPORT))]
+    out += [('envvars',)]
     out += [('hist', i, depth) for i in range(len(EVENTS))]
     if depth < 3:
         # every depth-3 history over a core of 16 events (one per kind of
@@ -558,6 +559,113 @@ def preimport(ctx, which):
                           short(want, 300), short(res, 300))
         else:
             ctx.outcome('ok')
+
+
+# ---------------------------------------------------------------------------
+# Environment variables the library reads
+
+
+def environment_variables_read():
+    """Names of environment variables the library source looks up
+    (os.environ.get('X') / os.environ['X'] / os.getenv('X') / 'X' in
+    os.environ): found by walking the syntax tree of pamqp/*.py.  The pinned
+    tree reads none."""
+    import ast
+    from mc import runner
+    names = set()
+    root = os.path.join(runner.REPO, 'pamqp')
+    for fname in sorted(os.listdir(root)):
+        if not fname.endswith('.py'):
+            continue
+        try:
+            tree = ast.parse(open(os.path.join(root, fname),
+                                  encoding='utf-8').read())
+        except (OSError, SyntaxError):
+            continue
+        for node in ast.walk(tree):
+            text = None
+            if isinstance(node, ast.Call):
+                f = ast.unparse(node.func)
+                if f.endswith(('environ.get', 'getenv', 'environ.pop',
+                               'environ.setdefault')) and node.args:
+                    text = node.args[0]
+            elif isinstance(node, ast.Subscript) and \
+                    ast.unparse(node.value).endswith('environ'):
+                text = node.slice
+            elif isinstance(node, ast.Compare) and any(
+                    ast.unparse(c).endswith('environ')
+                    for c in node.comparators):
+                text = node.left
+            if isinstance(text, ast.Constant) and isinstance(text.value, str):
+                names.add(text.value)
+    return sorted(names)
+
+
+ENV_VALUES = ['', '0', '1', 'false', 'no', 'off', 'true', 'x', '0 ']
+
+
+def envvars(ctx):
+    """The result of a codec call depends on its arguments and the legacy
+    switch - not on what some environment variable holds when the process
+    starts.  For every variable the library reads and every value of a small
+    menu, the events that show the ladder and the defaults are run in a fresh
+    interpreter started with that variable and must give their baseline."""
+    names = environment_variables_read()
+    ctx.count('environment_variables_read_by_the_library', len(names))
+    probes = [i for i, (n, _e) in enumerate(EVENTS) if n in (
+        'encode flag-sensitive table', 'marshal Queue.Declare',
+        'marshal ContentHeader', 'unmarshal Queue.Declare',
+        'construct Queue.Declare', 'encode Decimal 21474836.47',
+        'unmarshal prefixes of 0..9 bytes', 'construct bad exchange name')]
+    jobs = [(n, v, i) for n in names for v in ENV_VALUES for i in probes]
+
+    def one(job):
+        name, value, idx = job
+        env = dict(os.environ)
+        env[name] = value
+        out = subprocess.run([sys.executable, '-m', 'mc.c16child', str(idx),
+                              '0'], capture_output=True, text=True,
+                             timeout=300, env=env)
+        try:
+            return job, json.loads(out.stdout.strip().splitlines()[-1])[
+                'result']
+        except Exception:  # noqa
+            return job, ['child failed', out.stderr[-300:]]
+    # A variable may legitimately select the legacy ladder at start-up (the
+    # statement allows the switch to be on); what it may not do is produce a
+    # third behaviour, apply to some calls only, or take effect when it is
+    # empty or "0" (not configured).
+    seen = {}
+    with ThreadPoolExecutor(8) as pool:
+        for (name, value, idx), res in pool.map(one, jobs):
+            ctx.case(('envvar', name, value, idx), True, sample={
+                'environment': '%s=%r' % (name, value),
+                'event': EVENTS[idx][0]})
+            ctx.calls()
+            ctx.valid()
+            off, on = _BASE[(idx, False)], _BASE[(idx, True)]
+            which = 'off' if res == off else 'on' if res == on else 'other'
+            if off != on:
+                seen.setdefault((name, value), set()).add(which)
+            if which == 'other' or (which == 'on' and off != on and
+                                    value in ('', '0')):
+                ctx.outcome('environment-dependent')
+                ctx.violation('envvar|{}|{}|{}'.format(name, value, idx),
+                              'process started with {}={!r}: event "{}" '
+                              'gives {} instead of {}'.format(
+                                  name, value, EVENTS[idx][0],
+                                  short(res, 200), short(off, 200)),
+                              {'kind': 'envvars'}, short(off, 300),
+                              short(res, 300))
+            else:
+                ctx.outcome('ok')
+    for (name, value), kinds in sorted(seen.items()):
+        if len(kinds) > 1:
+            ctx.violation('envvar-mixed|{}|{}'.format(name, value),
+                          'process started with {}={!r}: some calls follow '
+                          'the legacy ladder and others do not ({})'.format(
+                              name, value, sorted(kinds)),
+                          {'kind': 'envvars'}, 'one ladder', sorted(kinds))
 
 
 # ---------------------------------------------------------------------------
@@ -1252,6 +1360,8 @@ def run(task, ctx):
             soak(ctx, task[1])
         elif kind == 'preimport':
             preimport(ctx, task[1])
+        elif kind == 'envvars':
+            envvars(ctx)
         elif kind == 'cold':
             explore_schedules(ctx, task[1], (task[2], COLD_SHARDS), task[3],
                               cold=True)
@@ -1276,7 +1386,9 @@ def finish(merged, tier, seed):
 
 def replay(case, ctx):
     baselines()
-    if case['kind'] == 'preimport':
+    if case['kind'] == 'envvars':
+        envvars(ctx)
+    elif case['kind'] == 'preimport':
         preimport(ctx, case['which'])
     elif case['kind'] == 'soak':
         soak(ctx, case['soak'])
